@@ -7,7 +7,7 @@ use mc_kit::{Deadline, Reporter, Samples, Tier, Violation};
 use serde_json::json;
 
 use crate::explore::{self, Cfg, Visitor};
-use crate::fault::{BIN_ALPHABET, JSON_ALPHABET};
+use crate::fault::{BIN_ALPHABET, FREEFORM_ALPHABET, JSON_ALPHABET};
 use crate::faultsys::{response_faults, FaultCtx, FaultStats};
 use crate::sys::{
     replay_with, response_for, show_steps, Codec, Finding, Kind, LaneKind, Resp, Step, System,
@@ -465,6 +465,7 @@ pub fn run(tier: Tier, args: &[String]) -> i32 {
         "probe_after_every_faulty_answer": probe_all,
         "bincode_fault_alphabet": BIN_ALPHABET,
         "json_fault_alphabet": JSON_ALPHABET,
+        "freeform_fault_alphabet (both codecs)": FREEFORM_ALPHABET,
         "where_applied": "events: the whole family of all 10 menu events at EVERY position i of EVERY complete valid history of the depth bound (all shorter histories are prefixes), rest of the history continued on the same instance against the twin; well-formed event mutants: at every history-tree node; answers: for EVERY outstanding request of EVERY node the family of its valid answer, each on fresh objects, outcome + views + registry occupancy checked against the twin right away; the probe (answer everything still outstanding, one more event + answer, every step against the twin) and ALL continuations up to the depth bound for one representative per (request, post-state fingerprint) of the rejected answers - in the thorough tier the probe follows EVERY faulty answer at every position except those of the deepest level (representatives there); three inputs to each of the two latest notifications",
         "oracle": "return or Err, never a panic (captured panic = finding keyed by cause); call < 10 s (watchdog thread); peak allocation during the call < 16 MiB; rejected event: view bytes, registry kinds and core gauges unchanged, rest of the history equals the twin's; rejected answer: twin drops exactly that request if one-shot, does nothing if stream/notification, then views equal, registry one-shot entries == outstanding one-shots, probe equals the twin's; well-formed mutants: twin is given the decoded value (timer ids translated), outcomes/effects/views equal",
         "states": states,
